@@ -113,6 +113,9 @@ func (f *c09Fix) denom(id uint64) string {
 func c09Build(t *testing.T, app *chain.App, ctx sdk.Context, gen int, rng *Rng, tr *Trace, withLend bool) *c09Fix {
 	f := &c09Fix{t: t, app: app, ctx: ctx, gen: gen, rng: rng, tr: tr, height: 10}
 	nApps := rng.Range(1, 3)
+	if gen == 1 {
+		nApps = rng.Range(1, 2) // app id 3 shares its generation-1 offset key with the borrow sweep: separate witness
+	}
 	if withLend {
 		nApps = 3
 	}
@@ -704,7 +707,7 @@ func (f *c09Fix) runSequence(nBlocks int) {
 func c09SliceCheck(tr *Trace, l, o, b int) {
 	s1, e1 := liqtypes.GetSliceStartEndForLiquidations(l, o, b)
 	s2, e2 := liq2types.GetSliceStartEndForLiquidations(l, o, b)
-	tr.Line("liq.slice", i64(int64(l)), i64(int64(o)), i64(int64(b)), i64(int64(s1)), i64(int64(e1)), i64(int64(s2)), i64(int64(e2)))
+	tr.Line("liq.slice.single", i64(int64(l)), i64(int64(o)), i64(int64(b)), i64(int64(s1)), i64(int64(e1)), i64(int64(s2)), i64(int64(e2)), "ok")
 }
 
 // TestC09 — see the file comment.
@@ -718,7 +721,9 @@ func TestC09(t *testing.T) {
 	// ---- corpus first: the witnesses of notes/C09.md
 	c09WitnessTwoSweeps(t, app, base, tr, 1)
 	c09WitnessTwoSweeps(t, app, base, tr, 2)
-	c09WitnessStarved(t, app, base, tr)
+	c09WitnessStarved(t, app, base, tr, 2, 1)
+	c09WitnessStarved(t, app, base, tr, 1, 3)
+	c09WitnessStarved(t, app, base, tr, 1, 2) // control: generation 1, another app id — vault 3 is seized in block 3
 
 	// ---- pure helper: GetSliceStartEndForLiquidations, exhaustive small and wide random
 	for l := -2; l <= 9; l++ {
@@ -895,7 +900,7 @@ func c09RatioChecks(t *testing.T, app *chain.App, base sdk.Context, tr *Trace, r
 			tr.Count("cr:err")
 		}
 		f.envLine()
-		tr.Line("liq.cr", u(p.id), ain.String(), tout.String(), res)
+		tr.Line("liq.cr.single", u(p.id), ain.String(), tout.String(), res, "ok")
 		// the lend ratio on the same assets: debt value / collateral value
 		a1, _ := app.AssetKeeper.GetAsset(ctx, p.ain.id)
 		a2, _ := app.AssetKeeper.GetAsset(ctx, p.aou.id)
@@ -909,7 +914,7 @@ func c09RatioChecks(t *testing.T, app *chain.App, base sdk.Context, tr *Trace, r
 			res = r.BigInt().String()
 			tr.Count("br:ok")
 		}
-		tr.Line("liq.br", u(p.ain.id), u(p.aou.id), ain.String(), tout.String(), res)
+		tr.Line("liq.br.single", u(p.ain.id), u(p.aou.id), ain.String(), tout.String(), res, "ok")
 	}
 }
 
@@ -1003,13 +1008,16 @@ func c09LendFixture(f *c09Fix) {
 // ---------------------------------------------------------------------------------------------------------------
 
 // one app, one product (MinCr 1.5, collateral and debt with 6 decimals, oracle-priced debt), everything enabled
-func c09Simple(t *testing.T, app *chain.App, base sdk.Context, gen int, tr *Trace) *c09Fix {
+func c09Simple(t *testing.T, app *chain.App, base sdk.Context, gen int, tr *Trace, appID uint64) *c09Fix {
 	ctx, _ := base.CacheContext()
 	f := &c09Fix{t: t, app: app, ctx: ctx, gen: gen, rng: NewRng(7), tr: tr, height: 10}
-	if err := app.AssetKeeper.AddAppRecords(ctx, assettypes.AppData{Name: "wit", ShortName: "wit", MinGovDeposit: sdk.NewInt(0)}); err != nil {
-		t.Fatal(err)
+	for i := uint64(1); i <= appID; i++ {
+		nm := []string{"wit", "xena", "yoda"}[i-1]
+		if err := app.AssetKeeper.AddAppRecords(ctx, assettypes.AppData{Name: nm, ShortName: nm, MinGovDeposit: sdk.NewInt(0)}); err != nil {
+			t.Fatal(err)
+		}
+		f.apps = append(f.apps, i)
 	}
-	f.apps = []uint64{1}
 	for i, nm := range []string{"WCOL", "WDEBT"} {
 		if err := app.AssetKeeper.AddAssetRecords(ctx, assettypes.Asset{Name: nm, Denom: "u" + strings.ToLower(nm), Decimals: c09Pow10(6), IsOnChain: true, IsOraclePriceRequired: true, IsCdpMintable: true}); err != nil {
 			t.Fatal(err)
@@ -1022,7 +1030,7 @@ func c09Simple(t *testing.T, app *chain.App, base sdk.Context, gen int, tr *Trac
 	if err := app.AssetKeeper.AddPairsRecords(ctx, assettypes.Pair{AssetIn: 1, AssetOut: 2}); err != nil {
 		t.Fatal(err)
 	}
-	ep := bindings.MsgAddExtendedPairsVault{AppID: 1, PairID: 1, StabilityFee: sdk.ZeroDec(), ClosingFee: sdk.ZeroDec(), LiquidationPenalty: sdk.MustNewDecFromStr("0.12"),
+	ep := bindings.MsgAddExtendedPairsVault{AppID: appID, PairID: 1, StabilityFee: sdk.ZeroDec(), ClosingFee: sdk.ZeroDec(), LiquidationPenalty: sdk.MustNewDecFromStr("0.12"),
 		DrawDownFee: sdk.ZeroDec(), IsVaultActive: true, DebtCeiling: sdk.NewInt(1000000000000), DebtFloor: sdk.NewInt(1000), MinCr: sdk.MustNewDecFromStr("1.5"),
 		PairName: "WIT", AssetOutOraclePrice: true, AssetOutPrice: 1000000, MinUsdValueLeft: 1000000}
 	if err := app.AssetKeeper.WasmAddExtendedPairsVaultRecords(ctx, &ep); err != nil {
@@ -1030,13 +1038,13 @@ func c09Simple(t *testing.T, app *chain.App, base sdk.Context, gen int, tr *Trac
 	}
 	f.products = []uint64{1}
 	if gen == 2 {
-		f.setWl2(1, true)
+		f.setWl2(appID, true)
 		app.NewaucKeeper.SetAuctionParams(ctx, auctionsV2types.AuctionParams{AuctionDurationSeconds: 3600, Step: sdk.MustNewDecFromStr("0.1"),
 			WithdrawalFee: sdk.ZeroDec(), ClosingFee: sdk.ZeroDec(), MinUsdValueLeft: 100000, BidFactor: sdk.MustNewDecFromStr("0.1"),
 			LiquidationPenalty: sdk.MustNewDecFromStr("0.1"), AuctionBonus: sdk.ZeroDec()})
 	} else {
-		_ = app.LiquidationKeeper.WasmWhitelistAppIDLiquidation(ctx, 1)
-		f.setAuc1(1)
+		_ = app.LiquidationKeeper.WasmWhitelistAppIDLiquidation(ctx, appID)
+		f.setAuc1(appID)
 	}
 	for i := 0; i < 8; i++ {
 		a := c09Addr(100 + i)
@@ -1051,7 +1059,7 @@ func c09Simple(t *testing.T, app *chain.App, base sdk.Context, gen int, tr *Trac
 // D9: batch 1, six vaults, the last one unsafe from the first block on; the owners of vaults 1, 2, 3 close them just
 // before the offset reaches the unsafe vault. Lean: `C09.two_sweeps_counterexample` (same schedule on `Sw.run`).
 func c09WitnessTwoSweeps(t *testing.T, app *chain.App, base sdk.Context, tr *Trace, gen int) {
-	f := c09Simple(t, app, base, gen, tr)
+	f := c09Simple(t, app, base, gen, tr, 1)
 	f.setBatch(1)
 	tr.Line("liq.begin", fmt.Sprintf("v%d", gen), "1", u(c09ProbeBorrowKey(f)))
 	for i := 0; i < 6; i++ {
@@ -1094,10 +1102,12 @@ func c09WitnessTwoSweeps(t *testing.T, app *chain.App, base sdk.Context, tr *Tra
 
 // generation 2: the borrow sweep stores its offset under the vault sweep's key, so the vault sweep restarts at the
 // borrow sweep's end (0 without borrows) every block: with batch 1 only the first vault is ever examined.
-func c09WitnessStarved(t *testing.T, app *chain.App, base sdk.Context, tr *Trace) {
-	f := c09Simple(t, app, base, 2, tr)
+// Generation 1 has the same collision for the app whose id equals lendtypes.AppID (3): its vault offset shares the store
+// key of the generation-1 borrow sweep.
+func c09WitnessStarved(t *testing.T, app *chain.App, base sdk.Context, tr *Trace, gen int, appID uint64) {
+	f := c09Simple(t, app, base, gen, tr, appID)
 	f.setBatch(1)
-	tr.Line("liq.begin", "v2", "1", u(c09ProbeBorrowKey(f)))
+	tr.Line("liq.begin", fmt.Sprintf("v%d", gen), "1", u(c09ProbeBorrowKey(f)))
 	for i := 0; i < 3; i++ {
 		cr := int64(2000)
 		if i == 2 {
@@ -1112,5 +1122,5 @@ func c09WitnessStarved(t *testing.T, app *chain.App, base sdk.Context, tr *Trace
 		f.block()
 	}
 	_, still := f.app.VaultKeeper.GetVault(f.ctx, 3)
-	tr.Set("witness_starved_vault3_still_open_after_12_blocks", still)
+	tr.Set(fmt.Sprintf("witness_starved_gen%d_app%d_vault3_still_open_after_12_blocks", gen, appID), still)
 }
